@@ -68,9 +68,11 @@ void harness(void) {
   vs_begin_call(FAULTS, VS_M_EINTR);
   VASSERT(p_socket_connect(A, addrB, &err) && err == NULL && p_socket_is_connected(A), "connect of a datagram socket sets the default destination");
   vs_begin_call(FAULTS, VS_M_EINTR | VS_M_EAGAIN);
+  vs.nb_call = !blk;
   r = p_socket_send(A, (const pchar *) d1, (psize) n1, &err);
 #else
   vs_begin_call(FAULTS, VS_M_EINTR | VS_M_EAGAIN);
+  vs.nb_call = !blk;
   r = p_socket_send_to(A, addrB, (const pchar *) d1, (psize) n1, &err);
 #endif
   _Bool s1 = r >= 0;
@@ -78,6 +80,7 @@ void harness(void) {
   /* datagram 2: C -> B */
   blk = ND_BOOL(); p_socket_set_blocking(C, blk);
   vs_begin_call(FAULTS, VS_M_EINTR | VS_M_EAGAIN);
+  vs.nb_call = !blk;
   r = p_socket_send_to(C, addrB, (const pchar *) d2, (psize) n2, &err);
   _Bool s2 = r >= 0;
   if (s2) VASSERT(r == n2 && err == NULL, "whole datagram sent"); else { no_blocking_error(err, blk); err = NULL; }
@@ -93,6 +96,7 @@ void harness(void) {
     blk = ND_BOOL(); p_socket_set_blocking(B, blk);
     p_socket_set_timeout(B, 0);
     vs_begin_call(FAULTS, VS_M_EINTR | VS_M_EAGAIN);
+    vs.nb_call = !blk;
     for (int k = 0; k < VS_CAP; k++) buf[k] = 0;
     if (use_from) r = p_socket_receive_from(B, &from, (pchar *) buf, (psize) bl, &err);
     else r = p_socket_receive(B, (pchar *) buf, (psize) bl, &err);
